@@ -631,7 +631,13 @@ void execute_member_assignment(StatementExecutor *executor,
         // 右辺の構造体メンバを取得
         Variable *right_member_var =
             interpreter.get_struct_member(right_obj_name, right_member_name);
-        if (right_member_var->type == TYPE_STRING) {
+        if (TypeHelpers::isStruct(right_member_var->type) &&
+            !right_member_var->is_array) {
+            // 構造体メンバ全体の代入 (a.inner = b.inner)
+            Variable struct_value = *right_member_var;
+            interpreter.assign_struct_member_struct(obj_name, member_name,
+                                                    struct_value);
+        } else if (right_member_var->type == TYPE_STRING) {
             // mallocで取得したポインタを文字列に変換
             std::string str_value;
             if (right_member_var->str_value.empty() &&
